@@ -264,6 +264,20 @@ class LazyMixin:
                 return tuple(shape_of(base.arr))
             if a == "dims":
                 return tuple(base.dims or ())
+            if a == "coords":
+                # the coordinates a DataArray carries: its own, else those of the dataset it belongs to, for ITS dimensions
+                dims = base.dims.items if isinstance(base.dims, SList) else base.dims
+                if dims is None:
+                    raise Unsupported("coords of a DataArray without declared dims (line %d)" % n.lineno)
+                own = getattr(base, "coords", None) or {}
+                src = getattr(base, "owner", None)
+                out = {}
+                for d_ in dims:
+                    if d_ in own:
+                        out[d_] = own[d_] if isinstance(own[d_], SData) else SData(own[d_], name=d_)
+                    elif src is not None and d_ in src.coords:
+                        out[d_] = src.coords[d_]
+                return _Map(out, (base.name or "dataarray") + ".coords")
             return SFunc(name="dataarray." + a, handler=("method", base))
         if isinstance(base, SDs):
             if a == "coords":
